@@ -271,3 +271,143 @@ Proof.
     + apply (obj_rel_env j); [done|done|]. by apply new_obj_rel.
     + intros _. unfold sticky_j. rewrite P3 lookup_insert Ho. done.
 Qed.
+
+(* ------------------------------------------------------------------ *)
+(* access list *)
+Definition alwf (j : jstate) : Prop :=
+  (∀ a, al_loc j a) ∧
+  (∀ a a' idx, j_ala j !! a = Some idx → j_ala j !! a' = Some idx → (0 ≤ idx)%Z → a = a').
+Definition alrel (j : jstate) (A : gset addr) (S : gset (addr * slot)) : Prop :=
+  (∀ a, is_Some (j_ala j !! a) ↔ a ∈ A) ∧ (∀ a k, al_contains_slot j a k = true ↔ (a, k) ∈ S).
+
+Lemma alwf_frame j j' : j_ala j' = j_ala j → j_als j' = j_als j → alwf j → alwf j'.
+Proof. intros H1 H2 [A B]. split; [intros a; unfold al_loc|intros a a' idx]; rewrite ?H1 ?H2; [apply A|apply B]. Qed.
+Lemma alrel_frame j j' A S : j_ala j' = j_ala j → j_als j' = j_als j → alrel j A S → alrel j' A S.
+Proof.
+  intros H1 H2 [X Y]. split; [intros a; rewrite H1; apply X|].
+  intros a k. rewrite -Y. unfold al_contains_slot. by rewrite H1 H2.
+Qed.
+
+Lemma al_add_address_proj a j :
+  let j' := (al_add_address a j).1 in
+  j_als j' = j_als j ∧ j_ala j' = (match j_ala j !! a with Some _ => j_ala j | None => <[a := (-1)%Z]> (j_ala j) end) ∧
+  (al_add_address a j).2 = (match j_ala j !! a with Some _ => false | None => true end) ∧
+  j_objs j' = j_objs j ∧ j_muts j' = j_muts j ∧ j_db j' = j_db j ∧ j_destruct j' = j_destruct j ∧
+  j_bad j' = j_bad j ∧ j_logs j' = j_logs j ∧ j_logsize j' = j_logsize j ∧ j_tstor j' = j_tstor j ∧
+  j_refund j' = j_refund j ∧ j_entries j' = j_entries j ∧ j_th j' = j_th j ∧ j_ti j' = j_ti j ∧
+  j_revs j' = j_revs j ∧ j_nextrev j' = j_nextrev j.
+Proof. unfold al_add_address. destruct (j_ala j !! a); simpl; [done|]. by destruct j. Qed.
+
+Lemma al_add_address_wf a j : alwf j → alwf (al_add_address a j).1.
+Proof.
+  intros [A B]. destruct (al_add_address_proj a j) as (P1 & P2 & _). simpl in *.
+  destruct (j_ala j !! a) eqn:E; [by apply (alwf_frame j)|].
+  split.
+  - intros b idx. rewrite P1 P2. destruct (decide (b = a)) as [->|Hn].
+    + rewrite lookup_insert. intros [= <-]. by left.
+    + rewrite lookup_insert_ne //. apply A.
+  - intros b b' idx. rewrite P2. destruct (decide (b = a)) as [->|Hn], (decide (b' = a)) as [->|Hn'];
+      rewrite ?lookup_insert ?lookup_insert_ne //; try (intros; simplify_eq; lia). apply B.
+Qed.
+
+Lemma al_add_address_rel a j A S : alrel j A S → alrel (al_add_address a j).1 ({[a]} ∪ A) S.
+Proof.
+  intros [X Y]. destruct (al_add_address_proj a j) as (P1 & P2 & _). simpl in *.
+  split.
+  - intros b. rewrite P2 elem_of_union elem_of_singleton -X.
+    destruct (j_ala j !! a) eqn:E.
+    + split; [tauto|]. intros [->|H]; [by rewrite E|done].
+    + destruct (decide (b = a)) as [->|Hn]; [rewrite lookup_insert; split; eauto|].
+      rewrite lookup_insert_ne //. tauto.
+  - intros b k. rewrite -Y. unfold al_contains_slot. rewrite P1 P2.
+    destruct (j_ala j !! a) eqn:E; [done|].
+    destruct (decide (b = a)) as [->|Hn]; [by rewrite lookup_insert E|by rewrite lookup_insert_ne].
+Qed.
+
+Lemma al_add_slot_proj a k j :
+  let j' := (al_add_slot a k j).1.1 in
+  j_objs j' = j_objs j ∧ j_muts j' = j_muts j ∧ j_db j' = j_db j ∧ j_destruct j' = j_destruct j ∧
+  j_logs j' = j_logs j ∧ j_logsize j' = j_logsize j ∧ j_tstor j' = j_tstor j ∧
+  j_refund j' = j_refund j ∧ j_entries j' = j_entries j ∧ j_th j' = j_th j ∧ j_ti j' = j_ti j ∧
+  j_revs j' = j_revs j ∧ j_nextrev j' = j_nextrev j.
+Proof.
+  unfold al_add_slot. destruct (j_ala j !! a) as [idx|]; [|by destruct j].
+  destruct (idx =? -1)%Z; [by destruct j|]. destruct (j_als j !! Z.to_nat idx); [|by destruct j].
+  case_bool_decide; by destruct j.
+Qed.
+
+Lemma al_add_slot_spec a k j A S :
+  alwf j → alrel j A S →
+  let r := al_add_slot a k j in
+  alwf r.1.1 ∧ alrel r.1.1 ({[a]} ∪ A) ({[(a, k)]} ∪ S) ∧ j_bad r.1.1 = j_bad j ∧
+  r.1.2 = (match j_ala j !! a with Some _ => false | None => true end) ∧
+  r.2 = negb (al_contains_slot j a k).
+Proof.
+  intros [WA WB] [X Y]. unfold al_add_slot, al_contains_slot.
+  assert (Hfresh : (j_ala j !! a = None ∨ j_ala j !! a = Some (-1)%Z) →
+    let j' := j <| j_ala ::= <[a:=Z.of_nat (length (j_als j))]> |> <| j_als ::= λ l, l ++ [{[k]}] |> in
+    alwf j' ∧ alrel j' ({[a]} ∪ A) ({[(a, k)]} ∪ S) ∧ j_bad j' = j_bad j).
+  { intros Hf j'.
+    assert (E1 : j_ala j' = <[a:=Z.of_nat (length (j_als j))]> (j_ala j)) by (subst j'; by destruct j).
+    assert (E2 : j_als j' = j_als j ++ [{[k]}]) by (subst j'; by destruct j).
+    assert (E3 : j_bad j' = j_bad j) by (subst j'; by destruct j).
+    assert (Hlt : ∀ b idx, j_ala j !! b = Some idx → (0 ≤ idx)%Z → (Z.to_nat idx < length (j_als j))%nat).
+    { intros b idx Hb Hi. destruct (WA b idx Hb) as [->|(_ & sm & Hs & _)]; [lia|by eapply lookup_lt_Some]. }
+    split_and!; [split| |done].
+    - intros b idx. rewrite E1 E2. destruct (decide (b = a)) as [->|Hn].
+      + rewrite lookup_insert. intros [= <-]. right. split; [lia|]. exists {[k]}.
+        rewrite Nat2Z.id lookup_app_r // Nat.sub_diag. split; [done|set_solver].
+      + rewrite lookup_insert_ne //. intros Hb. destruct (WA b idx Hb) as [->|(Hi & sm & Hs & Hne)]; [by left|].
+        right. split; [done|]. exists sm. split; [|done]. rewrite lookup_app_l //. by eapply lookup_lt_Some.
+    - intros b b' idx. rewrite E1.
+      destruct (decide (b = a)) as [->|Hn], (decide (b' = a)) as [->|Hn'];
+        rewrite ?lookup_insert ?lookup_insert_ne //.
+      + intros [= <-] Hb' Hi. specialize (Hlt b' _ Hb' Hi). lia.
+      + intros Hb [= <-] Hi. specialize (Hlt b _ Hb Hi). lia.
+      + apply WB.
+    - split.
+      + intros b. rewrite E1 elem_of_union elem_of_singleton -X.
+        destruct (decide (b = a)) as [->|Hn]; [rewrite lookup_insert; split; eauto|].
+        rewrite lookup_insert_ne //. tauto.
+      + intros b s. rewrite elem_of_union elem_of_singleton -Y. unfold al_contains_slot. rewrite E1 E2.
+        destruct (decide (b = a)) as [->|Hn].
+        * rewrite lookup_insert. destruct (Z.of_nat (length (j_als j)) =? -1)%Z eqn:E; [apply Z.eqb_eq in E; lia|].
+          rewrite Nat2Z.id lookup_app_r // Nat.sub_diag. simpl. rewrite bool_decide_eq_true elem_of_singleton.
+          destruct Hf as [Hf|Hf]; rewrite Hf; simpl; split; try naive_solver.
+        * rewrite lookup_insert_ne //. split; [intros H; right; revert H|intros [[=]|H]; [done|revert H]];
+          destruct (j_ala j !! b) as [idx|] eqn:Eb; try done; destruct (idx =? -1)%Z eqn:E; try done;
+          apply Z.eqb_neq in E; destruct (WA b idx Eb) as [->|(Hi & sm & Hs & Hne)]; try done;
+          rewrite lookup_app_l; try done; by eapply lookup_lt_Some. }
+  destruct (j_ala j !! a) as [idx|] eqn:Ea.
+  - destruct (idx =? -1)%Z eqn:E.
+    + apply Z.eqb_eq in E. subst idx. simpl. destruct (Hfresh (or_intror eq_refl)) as (H1 & H2 & H3). done.
+    + apply Z.eqb_neq in E. destruct (WA a idx Ea) as [->|(Hi & sm & Hs & Hne)]; [done|]. rewrite Hs.
+      case_bool_decide as Hk; simpl.
+      * split_and!; try done. split; [intros b; rewrite elem_of_union elem_of_singleton -X; split; [tauto|intros [->|H]; [by rewrite Ea|done]]|].
+        intros b s. rewrite elem_of_union elem_of_singleton -Y. split; [tauto|]. intros [[= -> ->]|H]; [|done].
+        unfold al_contains_slot. rewrite Ea. destruct (idx =? -1)%Z eqn:E'; [apply Z.eqb_eq in E'; lia|].
+        rewrite Hs. by apply bool_decide_eq_true.
+      * set (j' := j <| j_als ::= <[Z.to_nat idx:={[k]} ∪ sm]> |>).
+        assert (E1 : j_ala j' = j_ala j) by (subst j'; by destruct j).
+        assert (E2 : j_als j' = <[Z.to_nat idx:={[k]} ∪ sm]> (j_als j)) by (subst j'; by destruct j).
+        assert (E3 : j_bad j' = j_bad j) by (subst j'; by destruct j).
+        assert (Hlen : (Z.to_nat idx < length (j_als j))%nat) by (by eapply lookup_lt_Some).
+        split_and!; [split| |done|done|done].
+        -- intros b i. rewrite E1 E2. intros Hb. destruct (WA b i Hb) as [->|(Hi' & sm' & Hs' & Hne')]; [by left|].
+           right. split; [done|]. destruct (decide (Z.to_nat i = Z.to_nat idx)) as [Heq|Hneq].
+           ++ rewrite Heq list_lookup_insert //. exists ({[k]} ∪ sm). split; [done|set_solver].
+           ++ rewrite list_lookup_insert_ne //. by exists sm'.
+        -- intros b b' i. rewrite E1. apply WB.
+        -- split; [intros b; rewrite E1 elem_of_union elem_of_singleton -X; split; [tauto|intros [->|H]; [by rewrite Ea|done]]|].
+           intros b s. rewrite elem_of_union elem_of_singleton -Y. unfold al_contains_slot. rewrite E1 E2.
+           destruct (decide (b = a)) as [->|Hn].
+           ++ rewrite Ea. destruct (idx =? -1)%Z eqn:E'; [apply Z.eqb_eq in E'; lia|].
+              rewrite list_lookup_insert // Hs !bool_decide_eq_true. set_solver.
+           ++ destruct (j_ala j !! b) as [i|] eqn:Eb; [|naive_solver].
+              destruct (i =? -1)%Z eqn:E'; [naive_solver|]. apply Z.eqb_neq in E'.
+              destruct (WA b i Eb) as [->|(Hi' & sm' & Hs' & Hne')]; [done|].
+              assert (Z.to_nat i ≠ Z.to_nat idx).
+              { intros Heq. assert (i = idx) by lia. subst i. by specialize (WB _ _ _ Eb Ea Hi). }
+              rewrite list_lookup_insert_ne //. naive_solver.
+  - simpl. destruct (Hfresh (or_introl eq_refl)) as (H1 & H2 & H3). done.
+Qed.
